@@ -2394,7 +2394,10 @@ func (a *Agent) TaskDispatch(RequestID uint32, CommandID uint32, Parser *parser.
 
 				a.Active = true
 
-				a.NameID = fmt.Sprintf("%08x", DemonID)
+				// the session keeps the id it registered with; a check-in cannot rename it
+				if fmt.Sprintf("%08x", DemonID) != a.NameID {
+					logger.Debug(fmt.Sprintf("Agent: %x, Command: COMMAND_CHECKIN, ignoring different agent id %x", AgentID, DemonID))
+				}
 				a.Info.FirstCallIn = a.Info.FirstCallIn
 				a.Info.LastCallIn = a.Info.LastCallIn
 				a.Info.Hostname = Hostname
